@@ -118,6 +118,50 @@ theorem C05_edges_sub (src : Content κ) (order size : Option Int) (upTo keepIso
       (nodesOf r).Nodup ∧ (∀ n ∈ nodesOf r, getNodeMeta r n = getNodeMeta src n) :=
   edgesSub_spec src order size upTo keepIso p hwf hp
 
+/-- `DirectedHypergraph.get_edges(size = sz | order = sz - 1, up_to, subhypergraph=True, keep_isolated_nodes)` for ANY
+directed source - no disjointness of the two sides is assumed, so this covers hyperedges whose source and target sets
+overlap (a self-loop `((6,),(6,))`, a feedback hyperedge `((1,),(1,2))`) and hyperedges with an empty side: the size that
+is tested is `len(source) + len(target)` (what `get_sizes()` reports; a node on both sides counts twice) and nothing else
+of the key is looked at; the nodes without `keep_isolated_nodes` are the nodes on either side of a selected hyperedge -/
+theorem C05_directed_sub_by_size (src : Content DKey) (order size : Option Int) (sz : Int) (upTo keepIso : Bool)
+    (hwf : WF src) (hsel : (order = none ∧ size = some sz) ∨ (order = some (sz - 1) ∧ size = none)) :
+    ∃ r, edgesSub src order size upTo keepIso = some r ∧ r.weighted = src.weighted ∧
+      r.edges = src.edges.filter (fun e =>
+        if upTo then decide (((e.1.1.length + e.1.2.length : Nat) : Int) ≤ sz)
+        else decide (((e.1.1.length + e.1.2.length : Nat) : Int) = sz)) ∧
+      (∀ n, n ∈ nodesOf r ↔ if keepIso then n ∈ nodesOf src else ∃ e ∈ r.edges, n ∈ e.1.1 ∨ n ∈ e.1.2) ∧
+      (nodesOf r).Nodup ∧ (∀ n ∈ nodesOf r, getNodeMeta r n = getNodeMeta src n) := by
+  have hf : ∃ p, edgeFilter (κ := DKey) order size upTo = some p ∧
+      ∀ k : DKey, p k = true ↔ if upTo then ((k.1.length + k.2.length : Nat) : Int) ≤ sz
+                                else ((k.1.length + k.2.length : Nat) : Int) = sz := by
+    rcases hsel with ⟨ho, hs⟩ | ⟨ho, hs⟩
+    · obtain ⟨p, hp, hk⟩ := (C05_edge_filter (κ := DKey) order size upTo).2.1 sz ho hs
+      exact ⟨p, hp, fun k => hk k⟩
+    · obtain ⟨p, hp, hk⟩ := (C05_edge_filter (κ := DKey) order size upTo).2.2.1 (sz - 1) ho hs
+      refine ⟨p, hp, fun k => ?_⟩
+      have h := hk k
+      have e : sz - 1 + 1 = sz := by omega
+      rw [e] at h
+      exact h
+  obtain ⟨p, hp, hk⟩ := hf
+  obtain ⟨r, h1, h2, h3, h4, h5, h6⟩ := C05_edges_sub src order size upTo keepIso p hwf hp
+  refine ⟨r, h1, h2, ?_, ?_, h5, h6⟩
+  · rw [h3]
+    apply List.filter_congr
+    intro e _
+    rw [Bool.eq_iff_iff, hk e.1]
+    cases upTo <;> simp
+  · intro n
+    rw [h4 n]
+    cases keepIso
+    · simp only [Bool.false_eq_true, if_false]
+      constructor
+      · rintro ⟨e, he, hn⟩
+        exact ⟨e, he, List.mem_append.mp hn⟩
+      · rintro ⟨e, he, hn⟩
+        exact ⟨e, he, List.mem_append.mpr hn⟩
+    · simp
+
 /-- whatever the source and the selection: an extraction that returns, returns an object of the source's
 weightedness (no well-formedness needed) -/
 theorem C05_weightedness (src r : Content κ) :
@@ -356,6 +400,26 @@ example : WF exD := C05_wf_reachable false _
 example : exD.edges = [(([1], [2]), (4, [(1, 1)])), (([2, 3], [1]), (4, []))] := by decide
 example : edgesSub exD none (some 3) false false =
     some ⟨false, [(2, []), (3, []), (1, [])], [(([2, 3], [1]), (4, []))], [], [], [(100, 0), (101, 1)]⟩ := by decide
+
+-- `C05_directed_sub_by_size`: overlapping sides (feedback hyperedge `((1,),(1,2))`, identical sides `((2,5),(2,5))`, the
+-- self-loop `((6,),(6,))`) and an empty side `((),(7,))`; sizes as `get_sizes()` reports them: 3, 2, 4, 2, 3, 1
+def C05.exLoop : Content DKey :=
+  run (empty true) [.addNode 8 [(0, 1)], .addEdge ([1], [1, 2]) (some 4) [], .addEdge ([3], [4]) (some 8) [(1, 1)],
+                    .addEdge ([2, 5], [2, 5]) (some 12) [], .addEdge ([6], [6]) (some 16) [(2, 2)],
+                    .addEdge ([1, 2], [3]) (some 20) [], .addEdge ([], [7]) (some 24) []]
+example : WF exLoop := C05_wf_reachable true _
+example : nodesOf exLoop = [8, 1, 2, 3, 4, 5, 6, 7] ∧
+    (keysOf exLoop).map Keyed.size = [3, 2, 4, 2, 3, 1] := by decide
+-- size 2 takes the self-loop (one distinct node, size 2) and not the feedback hyperedge (two distinct nodes, size 3)
+example : edgesSub exLoop none (some 2) false false =
+    some ⟨true, [(3, []), (4, []), (6, [])], [(([3], [4]), (8, [(1, 1)])), (([6], [6]), (16, [(2, 2)]))], [], [],
+      [(100, 1), (101, 1)]⟩ := by decide
+example : (edgesSub exLoop (some 2) none false true).map (fun r => (nodesOf r, keysOf r)) =
+    some ([8, 1, 2, 3, 4, 5, 6, 7], [([1], [1, 2]), ([1, 2], [3])]) := by decide
+example : (edgesSub exLoop none (some 1) true false).map (fun r => (nodesOf r, keysOf r)) =
+    some ([7], [([], [7])]) := by decide
+example : (edgesSub exLoop none (some 4) false false).map (fun r => (nodesOf r, keysOf r)) =
+    some ([2, 5], [([2, 5], [2, 5])]) := by decide
 
 -- `C05_copy_independent` / `C05_source_unchanged` on a two-slot state
 example : AL.get? (runSlots (extractInto [(0, exSrc)] 0 1 (fun x => some (copy x)))
